@@ -51,6 +51,10 @@ def seeds_tex(rng):
     for fmt, w, h, d in (("bc1", 8, 8, 1), ("bc3", 5, 7, 1), ("bc5", 4, 4, 2), ("bgra", 3, 3, 1)):
         H = h * d
         out.append(("texture-" + fmt, tex.header(rng.getrandbits(32), fmt, w, h, d) + rng.randbytes(tex.payload_len(fmt, w, H)), []))
+    # the 16-bit format the parser also accepts (not part of C13's domain, but of C18's)
+    hdr = bytearray(tex.header(0, "bgra", 4, 3, 1))
+    struct.pack_into("<I", hdr, 4, 0x1440)
+    out.append(("texture-b4g4r4a4", bytes(hdr) + rng.randbytes(4 * 3 * 2), []))
     return out
 
 
